@@ -137,11 +137,30 @@ F3c == {Prog("F3c", <<For(Asg("=", Var("X"), Num(0)), Bin("<", Var("X"), Num(6))
                           <<For(Asg("=", Var("Y"), Num(0)), Bin(op, Var("Y"), Var("b")), Inc(FALSE, 1, Var("Y")), <<S(Inc(FALSE, 1, Var("c")))>>)>>)>>) :
           op \in {"<", "!="}}
 
+\* F3d: 16-bit counters: increment / decrement followed at once by a zero test of the same variable
+W16 == {Var("s"), Var("ss"), Idx("sarr", Var("X"))}
+F3d == {Prog("F3d", <<S(Inc(pre, dd, w)), t>>) : pre \in BOOLEAN, dd \in {1, -1}, w \in W16,
+                    t \in {If(Bin("==", Var("s"), Num(0)), ThenElse[1], ThenElse[2]), If(Var("s"), ThenElse[1], ThenElse[2]), If(Bin("!=", Var("ss"), Num(0)), ThenElse[1], ThenElse[2]),
+                           If(Un("!", Var("ss")), ThenElse[1], ThenElse[2])}}
+       \cup {Prog("F3d", <<S(Asg(op, w, Num(1))), If(w, ThenElse[1], ThenElse[2])>>) : op \in {"-", "+"}, w \in {Var("s"), Var("ss")}}
+       \cup {Prog("F3d", <<Do(<<S(Inc(FALSE, 1, Var("c"))), S(Inc(FALSE, -1, w))>>, w)>>) : w \in {Var("s"), Var("ss")}}
+       \cup {Prog("F3d", <<For(None, Bin("!=", w, Num(0)), Inc(FALSE, -1, w), <<S(Inc(FALSE, 1, Var("c")))>>)>>) : w \in {Var("s"), Var("ss")}}
+\* F4b: switch inside loops, with break (leaves the switch) and continue (continues the loop)
+F4b == UNION {{Prog("F4b", <<For(Asg("=", i, Num(0)), Bin("!=", i, Num(4)), Inc(FALSE, 1, i),
+                         <<Switch(e, <<Case(<<0>>, <<j1>>), Case(<<1>>, <<S(Inc(FALSE, 1, Var("b"))), j2>>), Default(<<S(Asg("+", Var("b"), Num(16)))>>)>>), S(Inc(FALSE, 1, Var("c")))>>)>>) :
+          e \in {i, Idx("arr", Var("X")), Bin("&", i, Num(1))}, j1 \in {Break, Continue}, j2 \in {Break, Continue}} : i \in {Var("X"), Var("a")}}
+       \cup {Prog("F4b", <<Set("a", 3), While(Var("a"), <<S(Inc(FALSE, -1, Var("a"))), Switch(Var("a"), <<Case(<<1>>, <<j1>>), Case(<<2>>, <<S(Inc(FALSE, 1, Var("b"))), Break>>)>>), S(Inc(FALSE, 1, Var("c")))>>)>>) : j1 \in {Break, Continue}}
+       \cup {Prog("F4b", <<Set("a", 3), Do(<<S(Inc(FALSE, -1, Var("a"))), If(Bin("==", Var("a"), Var("b")), <<j1>>, <<>>), S(Inc(FALSE, 1, Var("c")))>>, Var("a"))>>) : j1 \in {Break, Continue}}
+       \cup {Prog("F4b", <<Set("a", 3), Do(<<S(Inc(FALSE, -1, Var("a"))), Switch(Var("a"), <<Case(<<1>>, <<j1>>), Case(<<2>>, <<S(Inc(FALSE, 1, Var("b"))), j2>>)>>), S(Inc(FALSE, 1, Var("c")))>>, Var("a"))>>) :
+               j1 \in {Break, Continue}, j2 \in {Break, Continue}}
 \* F4: switch
 Scrut == {Var("a"), Var("X"), Var("Y"), Bin("&", Var("a"), Num(3)), Idx("arr", Var("X"))}
 F4 == {Prog("F4", <<Switch(e, <<Case(<<0>>, <<Set("c", 10)>> \o brk1), Case(<<1, 2>>, <<Set("c", 20)>> \o brk2), Default(<<Set("b", 30)>>)>>)>>) :
          e \in Scrut, brk1 \in {<<>>, <<Break>>}, brk2 \in {<<>>, <<Break>>}}
       \cup {Prog("F4", <<Switch(e, <<Case(<<1>>, <<Set("c", 10), Break>>), Case(<<200>>, <<S(Inc(FALSE, 1, Var("c")))>>), Case(<<3>>, <<Set("b", 7), Break>>)>>)>>) : e \in Scrut}
+      \* a case 0 that is not the first test, with and without a default
+      \cup {Prog("F4", <<Switch(e, <<Case(<<2>>, <<Set("c", 10), Break>>), Case(<<0>>, <<Set("c", 20)>> \o brk1), Case(<<1>>, <<Set("b", 7), Break>>)>> \o dflt)>>) :
+               e \in Scrut, brk1 \in {<<>>, <<Break>>}, dflt \in {<<>>, <<Default(<<Set("b", 30)>>)>>}}
       \cup {Prog("F4", <<For(Asg("=", Var("X"), Num(0)), Bin("<", Var("X"), Num(4)), Inc(FALSE, 1, Var("X")),
                          <<Switch(Var("X"), <<Case(<<1>>, <<S(Inc(FALSE, 1, Var("c"))), Break>>), Case(<<2>>, <<S(Inc(FALSE, 1, Var("b")))>>), Default(<<S(Asg("+", Var("c"), Num(10)))>>)>>)>>)>>)}
 
@@ -165,6 +184,11 @@ CallS == {S(Call("h", <<>>)), S(Call("w", <<Var("b")>>)), S(Call("w", <<Num(0)>>
 TestsOn(r) == {If(r, ThenElse[1], ThenElse[2]), If(Un("!", r), <<Set("sb", 1)>>, <<Set("sb", 2)>>), If(Bin("==", r, Num(0)), <<Set("sb", 1)>>, <<>>),
                S(Asg("=", Var("t"), r)), If(Bin("<", r, Num(3)), <<Set("sb", 1)>>, <<Set("sb", 2)>>)}
 F5c == UNION {{Prog("F5c", <<S(Asg("=", r, v)), cl, t>>) : v \in {Var("a"), Idx("arr", Num(2)), Num(0), Num(5)}, cl \in CallS, t \in TestsOn(r)} : r \in {Var("X"), Var("c"), Var("s")}}
+\* F5d: a function with several returns of constants, followed by a constant assignment (a belief held on one return
+\* path must not reach the code after the call, in particular once the function is expanded inline)
+F5d == {Prog("F5d", <<S(Asg("=", d, Call("r2", <<>>))), S(Asg("=", v, Num(kk)))>>) : d \in {Var("c"), Var("X")}, v \in {Var("b"), Var("Y"), Var("sa")}, kk \in {1, 2, 0}}
+       \cup {Prog("F5d", <<S(Asg("=", Var("c"), Call("r3", <<x>>))), S(Asg("=", v, Num(kk)))>>) : x \in {Var("a"), Var("X")}, v \in {Var("b"), Var("X")}, kk \in {7, 9}}
+       \cup {Prog("F5d", <<If(Var("b"), <<Set("c", 4)>>, <<>>), S(Asg("=", Var("sb"), Call("sgn", <<x>>))), If(Var("sb"), <<Set("c", 5)>>, <<>>)>>) : x \in {Var("sa"), Var("a"), Num(200)}}
 \* F6: calls of functions whose bodies contain loops, early returns, switches, locals and further calls
 \* (compared variant against variant by C14; these functions have no CSem body)
 C6 == {Call("lp", <<x>>) : x \in {Var("b"), Num(3), Var("X")}} \cup {Call("er", <<x>>) : x \in {Var("a"), Num(128), Idx("arr", Var("X"))}}
@@ -219,6 +243,7 @@ Dst9 == Dst \cup {Idx("sarr", Var("Y")), Deref("p"), Idx("p", Var("Y")), Idx("sa
 F9 == {Prog("F9", <<S(Asg("=", d, l))>>) : d \in Dst9, l \in Leaf9}
       \cup {Prog("F9", <<S(Asg(op, d, l))>>) : op \in {"+", "&"}, d \in Dst9, l \in Leaf9 \ Leaf}
       \cup {Prog("F9", <<S(Asg(op, d, l))>>) : op \in {"+", "&"}, d \in Dst9 \ Dst, l \in Leaf9}
+      \cup {Prog("F9", <<S(Asg(op, d, n))>>) : op \in ShiftOps, d \in Dst9 \ Dst, n \in {Num(1), Num(3)}}
       \cup {Prog("F9", <<If(Bin(op, l, r), ThenElse[1], ThenElse[2])>>) : op \in {"==", "<"}, l \in Leaf9 \ Leaf, r \in {Var("a"), Num(1)}}
 \* F8: "reload after modify": a register (or the accumulator path) is loaded from v, v is then modified by some
 \* statement, and the register is loaded from v again and observed.  Every register belief of the optimiser
@@ -243,7 +268,9 @@ MPool == {S(Asg("=", Idx("arr", Num(1)), Var("Y"))), S(Asg("=", Idx("arr", Num(2
           S(Asg("=", Var("Y"), Bin("+", Var("b"), Var("c")))), S(Asg("=", Var("X"), Bin("&", Var("a"), Num(3)))), S(Asg("=", Var("Y"), Idx("arr", Var("X")))),
           S(Asg("+", Var("s"), Var("a"))), S(Asg("<<", Var("s"), Num(1))), S(Asg("=", Var("b"), Call("f", <<Var("a")>>))), S(Call("h", <<>>)), S(Call("z0", <<>>)),
           If(Var("b"), <<Set("a", 1)>>, <<>>), If(Var("b"), <<Set("X", 2)>>, <<Set("X", 1)>>), If(Bin("<", Var("a"), Var("b")), <<S(Inc(FALSE, 1, Var("Y")))>>, <<>>),
-          While(Var("b"), <<S(Inc(FALSE, -1, Var("b")))>>), While(Var("sb"), <<Set("X", 2), Break>>), While(Var("sb"), <<If(Var("b"), <<Set("Y", 1), Break>>, <<>>), Set("Y", 3), Break>>),
+          While(Var("b"), <<S(Inc(FALSE, -1, Var("b")))>>), While(Var("sb"), <<Set("X", 2), Break>>),
+          While(Var("sb"), <<If(Var("b"), <<Set("Y", 3), Break>>, <<>>), Set("Y", 1), Break>>), While(Var("sb"), <<If(Var("b"), <<Set("X", 2), Break>>, <<>>), Set("X", 1), Break>>),
+          While(Var("sb"), <<If(Var("b"), <<Set("sa", 2), Break>>, <<>>), Set("sa", 1), Break>>), S(Asg("=", Var("sa"), Call("r2", <<>>))), While(Var("sb"), <<If(Var("b"), <<Set("Y", 1), Break>>, <<>>), Set("Y", 3), Break>>),
           For(Asg("=", Var("Y"), Num(0)), Bin("<", Var("Y"), Num(2)), Inc(FALSE, 1, Var("Y")), <<S(Inc(FALSE, 1, Var("sb")))>>),
           S(Asg("=", Deref("p"), Var("b"))), S(Asg("=", Idx("p", Var("Y")), Var("b"))), S(Asg("=", Var("sb"), Idx("arr", Var("X")))), S(Asg("=", Var("sb"), Idx("arr", Var("Y")))),
           S(Asg("=", Var("sa"), Un("-", Var("sa")))), S(Asg("=", Var("a"), Bin("+", Var("a"), Var("b")))), S(Asg("=", Var("sb"), Bin("<", Var("a"), Var("b")))),
@@ -251,6 +278,19 @@ MPool == {S(Asg("=", Idx("arr", Num(1)), Var("Y"))), S(Asg("=", Idx("arr", Num(2
 LPool == {Var("a"), Idx("arr", Var("X")), Idx("arr", Var("Y")), Idx("arr", Num(2)), Idx("arr", Num(1)), Num(1), Num(0), Idx("tab", Var("X")), Deref("p")}
 F8g == {Prog("F8g", <<Set("X", 1), Set("Y", 2), S(Asg("=", r, l)), S(Asg("=", Var("t"), r)), m, S(Asg("=", r, l)), S(Asg("=", Var("c"), r))>>) :
           r \in {Var("X"), Var("Y"), Var("c")}, l \in LPool, m \in MPool}
+\* F8h: a register receives a value COMPUTED from v in the accumulator (shift, rotate-based signed shift, arithmetic, negation),
+\* then v itself: every accumulator operation must drop the belief "A holds v" before a transfer copies it to X or Y
+F8h == UNION {{Prog("F8h", <<S(Asg("=", r, e)), S(Asg("=", r, v)), S(Asg("=", Var("b"), r))>>) : r \in {Var("X"), Var("Y"), Var("c")},
+                e \in {Bin(">>", v, Num(1)), Bin("<<", v, Num(1)), Bin(">>", v, Num(2)), Bin("+", v, Num(1)), Bin("&", v, Num(3)), Un("-", v), Un("~", v), Bin("^", v, Var("b"))}} :
+              v \in {Var("sa"), Var("a"), Idx("arr", Num(1)), Idx("sarr", Num(0))}}
+\* F8f: flags beliefs: a constant is stored, something that sets the flags differently follows, the same constant is
+\* stored again (so that its load is redundant for the accumulator but not for the flags) and tested at once
+FlagMod == {S(Inc(FALSE, 1, Var("X"))), S(Inc(FALSE, -1, Var("Y"))), S(Asg("=", Var("X"), Num(3))), S(Asg("=", Var("Y"), Var("c"))), S(Inc(FALSE, 1, Var("c"))),
+            S(Asg("<<", Var("s"), Num(1))), S(Asg("=", Var("X"), Var("c"))), S(Inc(FALSE, -1, Var("sb"))), S(Asg("=", Idx("arr", Var("X")), Var("c")))}
+F8f == {Prog("F8f", <<Set("a", kk), m, Set("b", kk), t>>) : kk \in {0, 1}, m \in FlagMod,
+                     t \in {If(Var("b"), <<Set("sa", 1)>>, <<Set("sa", 2)>>), If(Un("!", Var("b")), <<Set("sa", 1)>>, <<Set("sa", 2)>>), If(Bin("==", Var("b"), Num(0)), <<Set("sa", 1)>>, <<>>)}}
+       \cup {Prog("F8f", <<Do(<<Set("a", kk), m, Set("b", kk)>>, Var("b"))>>) : kk \in {0}, m \in FlagMod}
+       \cup {Prog("F8f", <<Set("b", 2), While(Var("b"), <<Set("a", 0), m, Set("b", 0)>>)>>) : m \in FlagMod}
 \* FX: explicit hardware-access statements mixed with ordinary code (C18).  PORT1..PORT3 are io cells declared by the driver.
 Load(e) == [k |-> "load", e |-> e]
 Store(e) == [k |-> "store", e |-> e]
@@ -306,7 +346,7 @@ RW == {Pair2("commute", <<S(Asg("=", d, Bin(op, l, r)))>>, <<S(Asg("=", d, Bin(o
       \cup {Pair2("callbody", <<S(Asg("=", d, Call("g", <<x, y>>)))>>, <<S(Asg("=", d, Bin("-", x, y)))>>) : d \in {Var("a"), Var("Y")}, x \in Arg, y \in {Var("b"), Num(1)}}
       \cup {Pair2("callbody", <<S(Call("h", <<>>)), S(Asg("=", Var("b"), Var("a")))>>, <<S(Inc(FALSE, 1, Var("a"))), S(Asg("=", Var("b"), Var("a")))>>)}
       \cup {Pair2("callbody", <<S(Call("w", <<x>>))>>, <<S(Asg("=", Var("c"), x))>>) : x \in Arg}
-AllFams == FW \cup F8g \cup FL \cup F5c \cup F6 \cup F8 \cup F9 \cup F1a \cup F1b \cup F1c \cup F1d \cup F1e \cup F1f \cup F1g \cup F2a \cup F2b \cup F2c \cup F2z \cup F2s
+AllFams == FW \cup F3d \cup F4b \cup F5d \cup F8f \cup F8h \cup F8g \cup FL \cup F5c \cup F6 \cup F8 \cup F9 \cup F1a \cup F1b \cup F1c \cup F1d \cup F1e \cup F1f \cup F1g \cup F2a \cup F2b \cup F2c \cup F2z \cup F2s
            \cup F3a \cup F3b \cup F3c \cup F4 \cup F5a \cup F5b \cup F7a \cup F7b \cup F7c
 Family ==
   CASE Fam = "ALL" -> AllFams [] Fam = "RW" -> RW [] Fam = "FX" -> FX \cup FS
@@ -315,7 +355,7 @@ Family ==
     [] Fam = "F2a" -> F2a [] Fam = "F2b" -> F2b [] Fam = "F2c" -> F2c [] Fam = "F2z" -> F2z [] Fam = "F2s" -> F2s
     [] Fam = "F3a" -> F3a [] Fam = "F3b" -> F3b [] Fam = "F3c" -> F3c
     [] Fam = "F4" -> F4 [] Fam = "F5a" -> F5a [] Fam = "F5b" -> F5b
-    [] Fam = "F7a" -> F7a [] Fam = "F7b" -> F7b [] Fam = "F7c" -> F7c [] Fam = "FW" -> FW [] Fam = "FL" -> FL [] Fam = "F5c" -> F5c [] Fam = "F6" -> F6 [] Fam = "F8" -> F8 [] Fam = "F8g" -> F8g [] Fam = "F9" -> F9
+    [] Fam = "F7a" -> F7a [] Fam = "F7b" -> F7b [] Fam = "F7c" -> F7c [] Fam = "FW" -> FW [] Fam = "FL" -> FL [] Fam = "F5c" -> F5c [] Fam = "F6" -> F6 [] Fam = "F8" -> F8 [] Fam = "F8g" -> F8g [] Fam = "F8f" -> F8f [] Fam = "F3d" -> F3d [] Fam = "F4b" -> F4b [] Fam = "F5d" -> F5d [] Fam = "F9" -> F9
 
 VARIABLE prog
 Init == prog \in Family
